@@ -569,6 +569,14 @@ GEN(ITER(int)) @Chunks(n int) {
 	}
 	RETURN
 }
+// the nested iterator type as a PARAMETER type and as a field type
+type @nest struct{ gg ITER(ITER(int)) }
+func @flatten(gg ITER(ITER(int))) int {
+	n := @nest{gg}
+	t := 0
+	RANGEITER(g, :=, n.gg) { RANGEITER(v, :=, g) { t += v } }
+	return t
+}
 func @Flat(n int) int {
 	t := 0
 	RANGEITER(chunk, :=, GENCALL(ITER(int), @Chunks, n)) {
@@ -579,6 +587,7 @@ func @Flat(n int) int {
 			t += v
 		}
 	}
+	t += @flatten(GENCALL(ITER(int), @Chunks, 2))
 	held := map[string]ITER(ITER(int)){"k": GENCALL(ITER(int), @Chunks, 2)}
 	for held["k"].MoveNext() {
 		inner := held["k"].Current()
@@ -1574,6 +1583,13 @@ GEN(int) @G(xs []string) {
 	k := -5
 	for k = range len(xs) { vm.E("tick") }
 	YIELD(k)
+	// ... and even when the body is empty
+	j, t := -1, "none"
+	for j, t = range xs {}
+	YIELD(10*j + len(t))
+	r := 'x'
+	for j, r = range "héé" {}
+	YIELD(10*j + int(r)%7)
 	RETURN
 }`, Drives: []Drive{gen("int", "@G", `[]string{"a", "bb", "ccc"}`), gen("int", "@G", "nil")}},
 
